@@ -95,7 +95,7 @@ func cmdCheck(args []string) int {
 	var vioLines []string
 	violate := func(obl, detail string, confirmed bool, extra map[string]interface{}) {
 		violations++
-		name := strings.NewReplacer("/", "_", ":", "_", "#", "_", " ", "_", "*", "_", "[", "_", "]", "_", "(", "_", ")", "_", "&", "_").Replace(obl)
+		name := strings.NewReplacer("/", "_", ":", "_", "#", "_", " ", "_", "*", "_", "[", "_", "]", "_", "(", "_", ")", "_", "&", "_", "$", "_").Replace(obl)
 		if len(name) > 120 {
 			name = name[:120]
 		}
